@@ -100,9 +100,21 @@ def gen_sim_config(rng, small=True, diseases=None, networks=None, demographics=N
     return cfg
 
 
+def _user_dist(spec):
+    """ a distribution object made by the USER before the simulation exists (strict=False: it initialises itself and may be
+        drawn from at once) — spec = dict(dist=<family>, pars={...}, preview=<draws taken from it before the sim is built>) """
+    import starsim as ss
+    d = getattr(ss, spec['dist'])(strict=False, **spec.get('pars', {}))
+    if spec.get('preview'): d.rvs(int(spec['preview']))
+    return d
+
+
 def _disease(d):
     import starsim as ss
     d = dict(d); t = d.pop('type')
+    if isinstance(d.get('dur_inf'), dict) and 'dist' in d['dur_inf']: d['dur_inf'] = _user_dist(d['dur_inf'])
+    if isinstance(d.get('beta'), dict):     # per-network betas: the same kind of time parameter a plain number becomes
+        d['beta'] = {k: (ss.beta(v) if isinstance(v, (int, float)) else v) for k, v in d['beta'].items()}
     if t == 'sir':
         kw = dict(beta=d.get('beta', 0.1), init_prev=d.get('init_prev', 0.05))
         if 'dur_inf' in d: kw['dur_inf'] = d['dur_inf']
